@@ -214,6 +214,16 @@ pub fn gen_prog(r: &mut Rng, depth: u32) -> (String, Vars) {
         ctl_decls.push(format!("({}{} {})", if vol { "volatile " } else { "" }, n, init_val(r, is_b)));
         v.controls.push((n, is_b, vol));
     }
+    // now and then a declaration whose initial value is not a literal (a name): it gets a register
+    // but no initialisation instruction; it is not used by the statements generated below
+    if r.chance(1, 6) {
+        for i in 0..r.range(1, 2) {
+            let init = *r.pick(&["unset", "undefined", "c0", "Cwnd"]);
+            if r.chance(1, 2) { ctl_decls.push(format!("({}cap{} {})", if r.chance(1, 3) { "volatile " } else { "" }, i, init)); }
+            else if use_struct && r.chance(1, 2) { struct_decls.push(format!("({}hole{} {})", if r.chance(1, 3) { "volatile " } else { "" }, i, init)); }
+            else { legacy.push(format!("(Report.hole{} {})", i, init)); }
+        }
+    }
     // declaration order: control/legacy before, struct, control/legacy after
     let mut before = vec![]; let mut after = vec![];
     for d in ctl_decls.into_iter().chain(legacy) { if r.chance(1, 2) { before.push(d); } else { after.push(d); } }
